@@ -538,7 +538,16 @@ class DeserializationMethodVisitor(
                     settings.errors.missing_property,
                     settings.errors.unexpected_property,
                 )
-            return ObjectMethod(
+            # Validators registered on the class are run by ObjectMethod according to
+            # their field dependencies; other ones (Annotated/field metadata or
+            # `validators` parameter) have no dependencies and validate the result
+            class_validators = [
+                v for v in validators if getattr(v, "owner", None) is not None
+            ]
+            other_validators = [
+                v for v in validators if getattr(v, "owner", None) is None
+            ]
+            method: DeserializationMethod = ObjectMethod(
                 constructor or RawConstructor(cls),
                 object_constraints,
                 tuple(normal_fields),
@@ -548,7 +557,7 @@ class DeserializationMethodVisitor(
                 all_alliases,
                 self.additional_properties,
                 is_typed_dict(cls),
-                tuple(validators),
+                tuple(class_validators),
                 tuple(
                     (f.name, f.default_factory)
                     for f in fields
@@ -559,6 +568,9 @@ class DeserializationMethodVisitor(
                 settings.errors.missing_property,
                 settings.errors.unexpected_property,
             )
+            if other_validators:
+                method = ValidatorMethod(method, other_validators, self.aliaser)
+            return method
 
         return self._factory(factory, dict, validation=False)
 
